@@ -31,6 +31,8 @@ type c04Scn struct {
 	JoinMode  string        `json:"join_mode"` // burst | staggered
 	Ops       int           `json:"ops"`
 	Dur       time.Duration `json:"duration_ns"`
+	V6        bool          `json:"ipv6,omitempty"`               // members live on 16-byte addresses
+	SlowState time.Duration `json:"slow_local_state_ns,omitempty"` // every other member's delegate takes this long in LocalState
 }
 
 // healthyTap watches every packet and stream for accusations.
@@ -175,7 +177,17 @@ func runC04(run *Run, seed int64, sc c04Scn, rng *rand.Rand) (out []*c01Result, 
 	c.Net.OnStream = append(c.Net.OnStream, tap.onStream)
 	left := map[string]bool{}
 	mk := func(i int) (*SimNode, error) {
-		return c.Add(NodeSpec{Name: fmt.Sprintf("n%d", i), Meta: []byte(fmt.Sprintf("meta-%d-0", i)), Mutate: func(cf *memberlist.Config) {
+		ip := ""
+		if sc.V6 {
+			ip = fmt.Sprintf("fd00:4::%x", i+1)
+		}
+		return c.Add(NodeSpec{Name: fmt.Sprintf("n%d", i), IP: ip, Meta: []byte(fmt.Sprintf("meta-%d-0", i)), Mutate: func(cf *memberlist.Config) {
+			if sc.SlowState > 0 && i%2 == 0 {
+				if d, ok := cf.Delegate.(*UserDelegate); ok {
+					d.StateDelay = sc.SlowState
+					d.State = []byte(fmt.Sprintf("state-of-n%d", i))
+				}
+			}
 			cf.IndirectChecks = sc.Indirect
 			cf.DisableTcpPings = !sc.TCPPing
 			cf.EnableCompression = sc.Compress
@@ -493,6 +505,10 @@ func TestC04(t *testing.T) {
 		}
 		if i%7 == 0 {
 			sc.N = 16
+		}
+		sc.V6 = rng.Intn(4) == 0
+		if rng.Intn(4) == 0 {
+			sc.SlowState = []time.Duration{300 * time.Millisecond, 1200 * time.Millisecond, 2500 * time.Millisecond}[rng.Intn(3)]
 		}
 		if sc.Rollout {
 			sc.Enc = true
